@@ -32,6 +32,7 @@ DECIDED = [
     "C14.5 image_lock typestate: yield only after lockf succeeded; bounded wait; exhaustion raises; unlock in finally; fd from `with open`",
     "C14.6 SKIP_LOCKS is False and never assigned; the lock file is never deleted",
     "C14.7 no (transitively) nested image_lock inside a locked section — the inner release would drop the outer per-process lock",
+    "C14.8 lock wait = update_pool_timeout (300); delete_local = os.unlink(pool_path) under the lock; link variants delegate with arguments in place; missing file <-> ''",
     "C14.2h the compare that guards each copy covers the complete files (KNOWN FINDING F10: only the first MiB is hashed)",
     "C14.2f the compare that guards each copy hashes both files when asked (no cached or metadata-only comparison)",
 ]
@@ -306,6 +307,46 @@ def no_nested_lock(ctx: Ctx, rule: str) -> None:
     ctx.note(f"{rule}: functions acquiring the lock transitively: {len(acquiring)}")
 
 
+def transfer_details(ctx: Ctx, rule: str) -> None:
+    """The details the lock discipline rests on: the configured timeout reaches the lock, deletion removes the pool file,
+    the link variants delegate with the arguments in place, a missing file hashes to '' (and only a missing one)."""
+    for name in ("download_local", "upload_local", "delete_local", "download_link"):
+        fref = f"{OPS}.{name}"
+        fn = ctx.repo.func(fref)
+        locks = _locks(fn.node)
+        tdefs = [ast.unparse(s_.value) for s_ in ast.walk(fn.node) if isinstance(s_, ast.Assign) and ast.unparse(s_.targets[0]) == "update_timeout"]
+        ok = len(locks) == 1 and len(locks[0].items[0].context_expr.args) == 2 and ast.unparse(locks[0].items[0].context_expr.args[1]) == "update_timeout" \
+            and tdefs == ["params.get_numeric('update_pool_timeout', 300)"]
+        ctx.record(rule + "t", "PROV", fref, "the lock wait is the configured update_pool_timeout (default 300 s)", ok, {"update_timeout": tdefs},
+                   "" if ok else f"{name} waits for the lock with something else than update_pool_timeout (default 300)")
+    fn = ctx.repo.func(f"{OPS}.delete_local")
+    locks = _locks(fn.node)
+    muts = [c for c in calls_in(fn.node) if dotted(c.func) in FILE_MUTATORS]
+    ok = len(locks) == 1 and len(muts) == 1 and dotted(muts[0].func) in ("os.unlink", "os.remove") and [ast.unparse(a) for a in muts[0].args] == ["pool_path"] and _inside(muts[0], locks[0]) \
+        and len(locks[0].body) == 1
+    ctx.record(rule + "x", "PAIR", fn.ref, "delete_local: under the lock, exactly os.unlink(pool_path)", ok, {"mutations": [ast.unparse(c) for c in muts]},
+               "" if ok else "delete_local no longer removes exactly the pool file under its lock")
+    for name, target, want in (("upload_link", "upload_local", ["cache_path", "pool_path", "params"]), ("delete_link", "delete_local", ["pool_path", "params"])):
+        fn = ctx.repo.func(f"{OPS}.{name}")
+        cs = [c for c in calls_in(fn.node) if call_name(c) == target]
+        ok = len(cs) == 1 and [ast.unparse(a) for a in cs[0].args] == want and not cs[0].keywords and ast.unparse(cs[0].func.value) in ("TransferOps", "cls")
+        ctx.record(rule + "g", "PROV", fn.ref, f"{name} delegates as {target}({', '.join(want)})", ok, {"calls": [ast.unparse(c) for c in cs]},
+                   "" if ok else f"{name} hands other arguments to {target} (direction or target swapped)")
+    # missing-file marker: hash under `if os.path.exists(<that path>)`, '' in its else
+    for name, pairs in (("compare_local", (("local_hash", "cache_path"), ("remote_hash", "pool_path"))), ("compare_remote", (("local_hash", "cache_path"),))):
+        fn = ctx.repo.func(f"{OPS}.{name}")
+        for var, path in pairs:
+            ifs = [i for i in fn.node.body if isinstance(i, ast.If) and any(isinstance(s_, ast.Assign) and ast.unparse(s_.targets[0]) == var for s_ in i.body)]
+            ok = len(ifs) == 1
+            if ok:
+                i = ifs[0]
+                ok = (norm.equivalent(norm.formula(i.test), norm.formula(ast.parse(f"os.path.exists({path})", mode="eval").body))
+                      and len(i.body) == 1 and isinstance(i.body[0].value, ast.Call) and call_name(i.body[0].value) == "hash_file"
+                      and len(i.orelse) == 1 and isinstance(i.orelse[0], ast.Assign) and ast.unparse(i.orelse[0]) == f"{var} = ''")
+            ctx.record(rule + "e", "TABLE", fn.ref, f"{var}: hash of {path} if it exists, else the missing-file marker ''", ok, {},
+                       "" if ok else f"{name}: {var} is no longer 'hash if the file exists else \'\'' (a missing file can compare equal to a present one, or an existing one is not read)")
+
+
 def whole_file_compare(ctx: Ctx, rule: str) -> None:
     """'Skips the copy when both already match' and 'destination byte-identical' need a comparison of the complete files."""
     n = 0
@@ -330,6 +371,7 @@ def run(ctx: Ctx) -> None:
     from .c13 import fresh_checksums
 
     ctx.call(whole_file_compare, "2h")
+    ctx.call(transfer_details, "8")
 
     ctx.call(fresh_checksums, "2f")
     ctx.call(no_nested_lock, "7")
@@ -344,6 +386,10 @@ def run(ctx: Ctx) -> None:
 
 
 MUTANTS = [
+    ("lock-timeout-other-key", POOL, "        update_timeout = params.get_numeric(\"update_pool_timeout\", 300)\n        with image_lock(pool_path, update_timeout) as lock:\n            os.unlink(pool_path)",
+     "        update_timeout = params.get_numeric(\"pool_timeout\", 300)\n        with image_lock(pool_path, update_timeout) as lock:\n            os.unlink(pool_path)", "8t"),
+    ("upload-link-swapped", POOL, "            TransferOps.upload_local(cache_path, pool_path, params)", "            TransferOps.upload_local(pool_path, cache_path, params)", "8g"),
+    ("missing-file-marker-inverted", POOL, "        if os.path.exists(pool_path):\n            remote_hash = crypto.hash_file(pool_path, 1048576, \"md5\")", "        if not os.path.exists(pool_path):\n            remote_hash = crypto.hash_file(pool_path, 1048576, \"md5\")", "8e"),
     ("compare-first-4k-only", POOL, "            local_hash = crypto.hash_file(cache_path, 1048576, \"md5\")\n        else:\n            local_hash = \"\"\n        if os.path.exists(pool_path):",
      "            local_hash = crypto.hash_file(cache_path, 4096, \"md5\")\n        else:\n            local_hash = \"\"\n        if os.path.exists(pool_path):", "2h"),
     ("copy-outside-lock", POOL, "                return\n            shutil.copy(pool_path, cache_path)", "                return\n        shutil.copy(pool_path, cache_path)", "1m"),
